@@ -34,7 +34,7 @@ def argparse_combos():
             for pat in (True, False):
                 for allm in (False, True):
                     for only in (False, True):
-                        for macros in ([], ["m1.yaml"], ["m1.yaml", "m2.yaml"]):
+                        for macros in ([], ["m1.yaml"], ["z_site.yaml", "a_base.yaml"], ["m2.yaml", "m1.yaml", "m2.yaml"]):     # given order, not sorted, repeats kept
                             argv = ["jasm"]
                             if pat:
                                 argv += ["-p", "rule.yaml"]
